@@ -374,7 +374,7 @@ ADDED_B17 = {
     "C08": "Added after the seventeenth batch: C08.19 (= C09.22) inside the hoist-key converters every call of a compiler function is another converter of the table or Clone::clone - a key never carries a value computed from the payload (a printed name).",
     "C09": "Added after the seventeenth batch: C09.22 (= C08.19) the hoist key of a reference carries the reference whole (file, name, type arguments): same-named types of two files cannot share a hoisted validator.",
     "C11": "Added after the seventeenth batch: C11.10 (= C07.17) who may construct a raw intersection: object members reach the runtime merged into one closed object, because every RuntypeKind::AllOf construction lies in the merging smart constructor or is consumed by the engine on the spot (necessary given recorded finding C11.3).",
-    "C12": "Added after the seventeenth batch: C12.14 the `errors` member of a value tested with `\"isUnionError\" in v` is read only as the direct argument of a number-valued function (the depth measure): a reporter never re-parents the branch errors of a nested union error, whose paths are relative to it.",
+    "C12": "Added after the seventeenth batch: C12.14 the `errors` member of a value tested with `\"isUnionError\" in v` is read only as the direct argument of a number-valued function (the depth measure): a reporter never re-parents the branch errors of a nested union error, whose paths are relative to it; C12.15 between pushPath(ctx, K) with K a bare property / index identifier and the matching popPath no reporter receives K itself as the value (1 known finding, executed under node: the key error of an index signature carries the key as `received` at the path of the value).",
     "C13": "Added after the seventeenth batch: C13.14 every method of the digest writer other than the finaliser that raises the fill level of the block buffer is followed, in the same statement list, by the flush `if (fill === 64) {compress; fill = 0}` - the finaliser's padding byte always fits; C13.3 also recognises a single-byte writer that stores its byte in the block buffer itself.",
     "C15": "Added after the seventeenth batch: C15.19 cross-language agreement on the spelling of a tuple rest: the runtime prints `...Array<T>`, the tuple lowering demands an array node, so the arm of the `Array` builtin builds its value with the array constructor only.",
 }
